@@ -216,6 +216,49 @@ theorem print_fields_exact (d : ExtDef) :
     (fieldsToPrint d).Pairwise (fun a b => strLe a.name b.name = true) := by
   exact ⟨sortFields_perm _, sortFields_sorted _⟩
 
+/-! ## field types that render themselves; own fields named like `GError`'s
+
+The model knows a field's value only as the text `%v` prints for it (`X.vals`; the harness asks fmt
+for it, on values that never meet generated code), so a field type with its own `String`, `Error`
+or `Format` method needs no case of its own: `Error()` must show exactly that text.  And an extra
+field is identified by its NAME in `vals` only; the embedded `GError` is `X.base`.  A field the
+struct declares under the name `Source`, `Name` or `Message` is therefore an ordinary extra field:
+no section of the base rendering and no base field of a method's result may come from it. -/
+
+/-- **`Error()` shows a print field exactly as `%v` renders it**: two objects with the same embedded
+`GError` whose print fields have the same `%v` texts have the same `Error()` — whatever the types
+of the fields are and whatever the other fields hold. -/
+private theorem flatMap_congr_mem {α β : Type} (l : List α) (f g : α → List β) (h : ∀ a ∈ l, f a = g a) :
+    l.flatMap f = l.flatMap g := by
+  induction l with
+  | nil => rfl
+  | cons a as ih =>
+    rw [List.flatMap_cons, List.flatMap_cons, h a (List.mem_cons_self ..),
+      ih (fun b hb => h b (List.mem_cons_of_mem _ hb))]
+
+theorem ext_error_parametric_in_fmt (d : ExtDef) (x y : X) (hb : x.base = y.base)
+    (hv : ∀ f ∈ d, f.print = true → x.val f.name = y.val f.name) : extError d x = extError d y := by
+  unfold extError
+  rw [hb, flatMap_congr_mem (fieldsToPrint d) (printField x) (printField y)]
+  intro f hf
+  have := (mem_fieldsToPrint d f).mp hf
+  unfold printField
+  rw [hv f this.1 this.2]
+
+/-- **The name / detail tag / source sections and the message section never read an extra field**,
+also not one that is itself called `Source`, `Name` or `Message`: replacing all extra field values
+leaves them as they are (only the print-field part in between can change). -/
+theorem own_fields_do_not_reach_base_sections (d : ExtDef) (x : X) (vals' : List (Str × Str)) :
+    extError d { x with vals := vals' } =
+      errorHead x.base ++ (fieldsToPrint d).flatMap (printField { x with vals := vals' }) ++ errorTail x.base := rfl
+
+/-- **… and neither does any generated method**: name, message, source, detail tag and stack of the
+result are those of the plain-`GError` method on the embedded value, whatever the extra fields
+(shadowing or not) hold. -/
+theorem ext_base_ignores_own_fields (d : ExtDef) (m : Method) (x : X) (vals' : List (Str × Str)) (c : Call) :
+    (extMethod d (tmplRow m) { x with vals := vals' } c).base = execRow (baseRow m) x.base c := by
+  rw [ext_eq_base]
+
 /-! ## The template at the pinned commit, and non-vacuity -/
 
 /-- the `SrcS` stanza as it was: `CloneBase(e, DefaultStack, "", "", "", nil)` — `""` where `src` belongs -/
@@ -254,6 +297,22 @@ example :
       ⟨⟨"ErrX".toList, "m".toList, "given:src".toList, [], ["x/pkg.Caller".toList]⟩,
        [("Status".toList, "3".toList), ("Hidden".toList, []), ("Cust".toList, [])]⟩ ∧
     extError exDef exX = "Name: ErrX, customer: hello, Status: 3, Message: m".toList := by
+  decide
+
+/-- own fields called `Source` (print, clone) and `Message` (print): the base sections keep showing
+the embedded `GError`'s source and message, the own fields appear among the print fields -/
+def exShadow : ExtDef :=
+  [⟨"Source".toList, "Source".toList, true, true, [] ⟩, ⟨"Message".toList, "Message".toList, true, false, [] ⟩]
+def exShadowX : X := ⟨⟨"ErrX".toList, "base message".toList, "S".toList, [], []⟩,
+  [("Source".toList, "own src".toList), ("Message".toList, "own".toList)]⟩
+
+example :
+    WellFormed exShadow ∧
+    extError exShadow exShadowX =
+      "Name: ErrX, Source: S, Message: own, Source: own src, Message: base message".toList ∧
+    extMethod exShadow (tmplRow .msg) exShadowX ⟨.msg, ["ext".toList], "ext".toList, ⟨"x/pkg.Caller".toList, []⟩⟩ =
+      ⟨⟨"ErrX".toList, "base message ext".toList, "S".toList, [], []⟩,
+       [("Source".toList, "own src".toList), ("Message".toList, [])]⟩ := by
   decide
 
 end GErrClone
